@@ -61,7 +61,29 @@ func (g *gen) time() int {
 
 func (g *gen) query() Query {
 	g.tr = nil
-	switch g.pick(7) {
+	orderFamily := false
+	switch g.pick(8) {
+	case 7:
+		// broad permanode-only constraints (many results): what is under test is the ORDER and the limit
+		i := g.alloc()
+		orderFamily = true
+		switch g.pick(6) {
+		case 0:
+			g.tr[i-1] = Node{K: "type", S: "permanode"}
+		case 1, 4, 5:
+			if v := g.wf.lookupValue("a"); v != 0 {
+				g.tr[i-1] = Node{K: "pn", S: "tag", V: v}
+			} else {
+				g.tr[i-1] = Node{K: "pn"}
+			}
+		case 2:
+			g.tr[i-1] = Node{K: "pn"}
+		default:
+			n := Node{K: "or"}
+			n.A = g.pnish()
+			n.B = g.pnish()
+			g.tr[i-1] = n
+		}
 	case 6:
 		if g.classic {
 			g.constraint(2+g.pick(3), false)
@@ -93,11 +115,14 @@ func (g *gen) query() Query {
 	default:
 		g.constraint(2+g.pick(3), false)
 	}
-	sorts := []string{"unsorted", "blobref", "created", "lastmod", "unspecified", "createdAsc", "blobref", "created", "lastmodAsc"}
+	sorts := []string{"unsorted", "blobref", "created", "lastmod", "unspecified", "createdAsc", "blobref", "created", "lastmodAsc", "createdAsc", "createdAsc"}
 	if g.classic {
 		sorts = []string{"unsorted", "blobref", "blobref", "unspecified"}
 	}
 	q := Query{Tree: g.tr, Sort: sorts[g.pick(len(sorts))]}
+	if orderFamily && !g.classic && g.chance(2) {
+		q.Sort = []string{"createdAsc", "createdAsc", "created", "lastmod"}[g.pick(4)]
+	}
 	if g.chance(2) {
 		q.Limit = 1 + g.pick(5)
 	}
